@@ -84,6 +84,18 @@ CLAIMED = {
              "docstrings on every run (31 methods). Known finding: sub-function 0x16 rejects two whole zero records. Tied by every valid reply x pad 0..2*record+1 x 4 settings.",
         design_ref='DESIGN.md §3 C11',
         technique='Lean 4 proof (strong induction on the pad length, prefix lemma by list induction) + docstring-extracted domain + differential correspondence'),
+    'C12': dict(
+        text="Lean theorems about the client model composed with a reference ECU written from the standard (Uds/Spec/Ecu.lean): for every ECU state before the calls (= after any history), "
+             "every codec configuration and all values / addresses / sizes / widths / block lengths: a value written to a data identifier is read back equal; bytes written to a memory range are "
+             "read back identical (the two calls may use different address/size widths); download + any sequence of blocks (induction over the block list; the counter wraps past 0xFF) + exit "
+             "leaves exactly the original bytes at the address; and each read-back still holds after any interleaved history of calls - successful, refused locally or answered negatively - that "
+             "does not itself overwrite the data (ECU frame invariants + induction over the history). The model client keeps nothing between calls; that the real client keeps nothing either "
+             "is decided by the history correspondence: random long histories over one long-lived real client (configuration changes, reused and re-pointed MemoryLocation objects, failing calls) "
+             "whose every frame goes to the Lean ECU, against the same calls through the Lean client model with its own ECU copy, compared per call and on the final ECU state, plus a Python shadow "
+             "store as P_spec on the implementation. Partial: user codecs are identity on raw bytes; upload is modelled in the ECU but has no theorem.",
+        design_ref='DESIGN.md §3 C12',
+        technique='Lean 4 proof (refinement to a reference ECU: round-trip theorems for all states, induction over block lists and call histories) + history differential suite with the Lean ECU in the loop',
+        note=NOTE + ' Known finding: identifier 0x0000 through the default codec with an all-zero value under zero-padding tolerance (excluded point of the theorem, proved to fail in the model, reproduced on the code).'),
     'C13': dict(
         text="Lean theorems: parity normalisation for all levels 1..0x7E (kernel-decided), exact seed/key request frames, complete behaviour of the composite (seed exchange "
              "first; without a good seed nothing more is sent and the algorithm is not called; otherwise exactly one call with that seed and the level as passed, result sent "
